@@ -774,6 +774,26 @@ func (e *Engine) doCall(s *state, fr *frame, v *ssa.Call, c *ssa.CallCommon) boo
 			fr.env[v] = mk("tuple", "", 0, nil, st...)
 		}
 	}
+	// pure string functions on constants fold (so that a function can be evaluated on a concrete configuration value)
+	if len(d.args) == 1 && d.args[0] != nil && d.args[0].Kind == "const" && strings.HasPrefix(d.args[0].Name, "\"") {
+		if u, err := strconv.Unquote(d.args[0].Name); err == nil {
+			var out string
+			folded := true
+			switch d.callee {
+			case "strings.ToLower":
+				out = strings.ToLower(u)
+			case "strings.ToUpper":
+				out = strings.ToUpper(u)
+			case "strings.TrimSpace":
+				out = strings.TrimSpace(u)
+			default:
+				folded = false
+			}
+			if folded {
+				fr.env[v] = mk("const", strconv.Quote(out), 0, v.Type())
+			}
+		}
+	}
 	if d.callee == "errors.Is" && len(d.args) == 2 {
 		if eq, known := errorsIsKnown(d.args[0], d.args[1]); known {
 			fr.env[v] = mk("const", fmt.Sprint(eq), 0, types.Typ[types.Bool])
@@ -1137,6 +1157,12 @@ func (e *Engine) load(s *state, addr *Term, typ types.Type) *Term {
 	if v, ok := s.mem[addr.key]; ok {
 		return v
 	}
+	if addr.Kind != "gaddr" {
+		// a cell below a package-level variable that is only assigned by its initialiser (element of an array literal, …)
+		if v, ok := e.globalInit[addr.key]; ok {
+			return v
+		}
+	}
 	switch addr.Kind {
 	case "gaddr":
 		if v, ok := e.globalInit[addr.key]; ok {
@@ -1382,6 +1408,12 @@ func (e *Engine) eval(s *state, fr *frame, v ssa.Value) *Term {
 		a := e.val(s, fr, x.X)
 		if types.Identical(x.X.Type().Underlying(), x.Type().Underlying()) {
 			return a
+		}
+		// an integer constant converted to another integer type that can hold it stays that constant
+		if a.Kind == "const" && isIntType(x.X.Type()) && isIntType(x.Type()) {
+			if c, ok := constVal(a); ok && c.IsInt64() && c.Int64() >= 0 && c.Int64() < 128 {
+				return mk("const", a.Name, 0, x.Type())
+			}
 		}
 		return mk("conv", typeStr(x.Type()), 0, x.Type(), a)
 	case *ssa.SliceToArrayPointer:
